@@ -29,6 +29,8 @@ type Case struct {
 	Init   uint32 `json:"init,omitempty"` // rread: InitRread count
 	Nrec   int    `json:"nrec,omitempty"` // dir: number of records
 	Desc   string `json:"desc,omitempty"`
+	// value put into Dir.Size before packing (derived data: must not matter)
+	DirSize uint16 `json:"dirsize,omitempty"`
 	// rread: SetTag is called between InitRread and SetRreadCount
 	TagFirst bool `json:"tagfirst,omitempty"`
 }
@@ -59,6 +61,7 @@ func runMsg(c *Case) error {
 		return fmt.Errorf("harness: reference bytes do not decode: %v", err)
 	}
 	fc := go9p.NewFcall(uint32(len(c.Pkt) + c.Slack))
+	conv.DirSize = c.DirSize
 	if err := conv.Pack(fc, m, c.Dotu); err != nil {
 		return fmt.Errorf("constructor refused a representable %s: %v", ref9p.TypeName(m.Type), err)
 	}
@@ -123,7 +126,9 @@ func runDir(c *Case) error {
 	var all []byte
 	var held [][]byte
 	for i, s := range recs {
-		b := go9p.PackDir(conv.GDir(s), c.Dotu)
+		gd := conv.GDir(s)
+		gd.Size = c.DirSize // the Size field of a Dir is derived data: whatever it holds, the encoding is the same
+		b := go9p.PackDir(gd, c.Dotu)
 		want := ref9p.EncodeStat(s, c.Dotu)
 		if !bytes.Equal(b, want) {
 			return fmt.Errorf("PackDir record %d dotu=%v differs at byte %d:\n got  %s\n want %s", i, c.Dotu, firstDiff(b, want), hexs(b), hexs(want))
@@ -159,6 +164,24 @@ func runDir(c *Case) error {
 		ws := ref9p.CanonStat(s, c.Dotu)
 		if gs != ws {
 			return fmt.Errorf("UnpackDir record %d dotu=%v: fields differ:\n got  %#v\n want %#v", i, c.Dotu, gs, ws)
+		}
+		// a decoded Dir encodes back to the same record, in the same dialect ...
+		if re := go9p.PackDir(d, c.Dotu); !bytes.Equal(re, ref9p.EncodeStat(s, c.Dotu)) {
+			return fmt.Errorf("record %d dotu=%v: re-encoding the decoded Dir gives different bytes (differs at byte %d)", i, c.Dotu, firstDiff(re, ref9p.EncodeStat(s, c.Dotu)))
+		}
+		// ... and in the other dialect to that dialect's layout of the same fields
+		{
+			o := *s
+			if c.Dotu {
+				o.Ext, o.Nuid, o.Ngid, o.Nmuid = "", 0, 0, 0
+			} else {
+				o.Nuid, o.Ngid, o.Nmuid = d.Uidnum, d.Gidnum, d.Muidnum
+			}
+			if ref9p.StatLen(&o, !c.Dotu) <= 65535+2 {
+				if re := go9p.PackDir(d, !c.Dotu); !bytes.Equal(re, ref9p.EncodeStat(&o, !c.Dotu)) {
+					return fmt.Errorf("record %d decoded with dotu=%v: re-encoding it with dotu=%v gives different bytes (differs at byte %d, length %d want %d)", i, c.Dotu, !c.Dotu, firstDiff(re, ref9p.EncodeStat(&o, !c.Dotu)), len(re), ref9p.StatLen(&o, !c.Dotu))
+				}
+			}
 		}
 		b = nb
 	}
@@ -347,6 +370,9 @@ func TestPropCodec(t *testing.T) {
 		c := &Case{Kind: "msg", Dotu: dotu, Pkt: ref9p.Encode(m, dotu)}
 		c.Slack = rapid.SampledFrom([]int{0, 0, 1, 100, 8192}).Draw(t, "slack")
 		c.NewTag = gen9p.U16().Draw(t, "newtag")
+		if typ == ref9p.Rstat || typ == ref9p.Twstat {
+			c.DirSize = gen9p.U16().Draw(t, "dirsize")
+		}
 		if rapid.Bool().Draw(t, "withjunk") {
 			c.Junk = rapid.SliceOfN(rapid.Byte(), 1, 40).Draw(t, "junk")
 		}
@@ -367,7 +393,7 @@ func TestPropDir(t *testing.T) {
 	hx.Check(t, "dir", hx.N(8000, 60000), func(t *rapid.T) {
 		dotu := rapid.Bool().Draw(t, "dotu")
 		n := rapid.IntRange(1, 5).Draw(t, "nrec")
-		c := &Case{Kind: "dir", Dotu: dotu, Nrec: n}
+		c := &Case{Kind: "dir", Dotu: dotu, Nrec: n, DirSize: gen9p.U16().Draw(t, "dirsize")}
 		for i := 0; i < n; i++ {
 			s := cfg.Stat(t, dotu, "st")
 			c.Pkt = append(c.Pkt, ref9p.EncodeStat(&s, dotu)...)
